@@ -665,3 +665,40 @@ func Fatal(msg string) {
 	}
 	s.Abort("fatal", msg)
 }
+
+// ChanRecvInt / ChanSendInt stand for "<-ch" and "ch <- v" on a buffered chan int (the request limiter's token
+// channel): under the scheduler they are blocking scheduling points whose enabledness is the channel's fill level.
+func ChanRecvInt(ch chan int) int {
+	s := cur
+	if s == nil || s.isFree {
+		return <-ch
+	}
+	if s.cur.poisoned {
+		select {
+		case v := <-ch:
+			return v
+		default:
+			return 0
+		}
+	}
+	s.Wait("chan-recv", func() bool { return len(ch) > 0 })
+	return <-ch
+}
+
+func ChanSendInt(ch chan int, v int) {
+	s := cur
+	if s == nil || s.isFree {
+		ch <- v
+		return
+	}
+	if s.cur.poisoned {
+		select {
+		case ch <- v:
+		default:
+		}
+		return
+	}
+	s.Wait("chan-send", func() bool { return len(ch) < cap(ch) })
+	ch <- v
+	s.Point("chan-sent") // a send wakes a receiver: the instant after it is a scheduling point too
+}
